@@ -1112,7 +1112,12 @@ func (eval Evaluator) mulRelinThenAdd(op0 *rlwe.Ciphertext, op1 *rlwe.Element[ri
 		ratio := resScale.Div(opOut.Scale)
 		// Only scales up if int(ratio) >= 2
 		if ratio.Float64() >= 2.0 {
-			if err = eval.Mul(opOut, &ratio.Value, opOut); err != nil {
+			// Scales up by the integer part of the ratio (a non-integer
+			// scalar would additionally be scaled by the next moduli).
+			// The ratio is read at the encoding precision, as Mul does.
+			ratioFlo := new(big.Float).SetPrec(eval.GetParameters().EncodingPrecision()).Set(&ratio.Value)
+			ratioInt, _ := ratioFlo.Int(nil)
+			if err = eval.Mul(opOut, ratioInt, opOut); err != nil {
 				return fmt.Errorf("cannot MulRelinThenAdd: %w", err)
 			}
 			opOut.Scale = resScale
